@@ -315,6 +315,9 @@ def _d11_collision_possible(spec, acc):
 
 def run_faults(case, rec):
     spec, accept = case["spec"], case["accept"]
+    typed = bool(case.get("typed"))
+    if typed:
+        rec.cls("typed")
     ops = make_ops(accept)
     names = case.get("ops") or sorted(ops)
     mid = 0
@@ -324,7 +327,7 @@ def run_faults(case, rec):
             rec.excl("D11:duplicate-collides-with-kept-child")
             continue
         # fault-free run counts K
-        tree, nodes = build(spec)
+        tree, nodes = build(spec, typed=typed)
         f = Fault(base_fn)
         f.armed = True
         with warnings.catch_warnings():
@@ -333,7 +336,7 @@ def run_faults(case, rec):
         K = f.calls
         rec.cls(f"callback={kind}")
         for k in range(1, K + 1):
-            tree, nodes = build(spec)
+            tree, nodes = build(spec, typed=typed)
             u = Uids()
             before = (u, snapshot(tree, u, label=lambda n: repr(n.data)), index_probe(tree))
             f = Fault(base_fn)
@@ -472,7 +475,21 @@ def refusal_cases(draw, tier):
 def fault_cases(draw, tier):
     spec = draw(gen.forest_specs(max_nodes=10, max_depth=4, max_width=4, min_nodes=2, alphabet=["a", "b", "c", "d", "e"]))
     accept = draw(st.lists(st.sampled_from(["a", "b", "c", "d", "e"]), max_size=4, unique=True))
-    return {"spec": spec, "accept": accept}
+    case = {"spec": spec, "accept": accept}
+    if draw(st.sampled_from([0, 0, 1])):
+        case["typed"] = True
+        kinds = ["x", "y", "child"]
+        c = [0]
+
+        def with_kinds(nodes):
+            for n in nodes:
+                del n[2:]
+                n.append({"kind": kinds[c[0] % 3]})
+                c[0] += 1
+                with_kinds(n[1])
+
+        with_kinds(spec)
+    return case
 
 
 def route_cases(tier):
